@@ -26,11 +26,15 @@ pub struct Config {
     pub handles: usize,
     /// Preset (packet id, subscription id) counters (C11).
     pub preset_ids: Option<(u16, u32)>,
+    /// A read returns as much of what is available as fits into the caller's buffer (what a
+    /// socket does), instead of one delivered chunk per read.
+    #[serde(default)]
+    pub coalesce: bool,
 }
 
 impl Default for Config {
     fn default() -> Self {
-        Config { select: SelectPolicy::PacketFirst, sweep: false, scribble: false, handles: 1, preset_ids: None }
+        Config { select: SelectPolicy::PacketFirst, sweep: false, scribble: false, handles: 1, preset_ids: None, coalesce: false }
     }
 }
 
